@@ -496,7 +496,11 @@ def stub_history(draw, tier="quick"):
         "root": draw(lab),
         "iterative": draw(st.integers(0, 2)) == 0,
         "rules": rules,
-        "query_at": sorted(draw(st.sets(st.integers(0, len(rules) - 1), max_size=6))),
+        "query_at": (
+            list(range(len(rules)))
+            if draw(st.integers(0, 2)) == 0
+            else sorted(draw(st.sets(st.integers(0, len(rules) - 1), max_size=6)))
+        ),
         "rng": draw(st.integers(0, 999)),
         "clock": draw(gen.clock_script),
     }
@@ -589,7 +593,7 @@ def subchecks():
             name="ruledb-stubs",
             run_case=run_partB,
             strategy=lambda tier: stub_history(tier),
-            examples={"quick": 3000, "thorough": 80000},
+            examples={"quick": 40000, "thorough": 600000},
         ),
         SubCheck(
             name="ruledb-searches",
